@@ -516,6 +516,9 @@ func derivesFromCallResult(v ssa.Value, c *ssa.Call, idx int, depth int) bool {
 					// the local is a copy of another local struct (a value returned by a folded helper):
 					// the field read here was stored into that one
 					if fa, ok := x.X.(*ssa.FieldAddr); ok && fa.X == ssa.Value(a) {
+						if fieldOfValueDerives(s.Val, fa.Field, c, idx, depth-1) {
+							return true
+						}
 						if u, ok := s.Val.(*ssa.UnOp); ok && u.Op == token.MUL {
 							if a2, ok := u.X.(*ssa.Alloc); ok && a2 != a {
 								for _, rf := range refsOf(a2) {
@@ -534,7 +537,7 @@ func derivesFromCallResult(v ssa.Value, c *ssa.Call, idx int, depth int) bool {
 	case *ssa.FieldAddr:
 		return derivesFromCallResult(x.X, c, idx, depth-1)
 	case *ssa.Field:
-		return derivesFromCallResult(x.X, c, idx, depth-1)
+		return fieldOfValueDerives(x.X, x.Field, c, idx, depth-1) || derivesFromCallResult(x.X, c, idx, depth-1)
 	case *ssa.ChangeType:
 		return derivesFromCallResult(x.X, c, idx, depth-1)
 	case *ssa.Phi:
@@ -544,6 +547,49 @@ func derivesFromCallResult(v ssa.Value, c *ssa.Call, idx int, depth int) bool {
 			}
 		}
 		return len(x.Edges) > 0
+	}
+	return false
+}
+
+// fieldOfValueDerives: field #field of the struct value sv derives from the call result: sv is a copy of a local
+// struct one of whose stores to that field does (followed through whole-value copies between locals).
+func fieldOfValueDerives(sv ssa.Value, field int, c *ssa.Call, idx, depth int) bool {
+	if depth <= 0 {
+		return false
+	}
+	switch x := sv.(type) {
+	case *ssa.Phi:
+		for _, e := range x.Edges {
+			if !fieldOfValueDerives(e, field, c, idx, depth-1) {
+				return false
+			}
+		}
+		return len(x.Edges) > 0
+	case *ssa.UnOp:
+		if x.Op != token.MUL {
+			return false
+		}
+		a, ok := x.X.(*ssa.Alloc)
+		if !ok {
+			return false
+		}
+		for _, rf := range refsOf(a) {
+			switch y := rf.(type) {
+			case *ssa.FieldAddr:
+				if y.Field != field {
+					continue
+				}
+				for _, st := range refsOf(y) {
+					if s, ok := st.(*ssa.Store); ok && s.Addr == ssa.Value(y) && derivesFromCallResult(s.Val, c, idx, depth-1) {
+						return true
+					}
+				}
+			case *ssa.Store:
+				if y.Addr == ssa.Value(a) && fieldOfValueDerives(y.Val, field, c, idx, depth-1) {
+					return true
+				}
+			}
+		}
 	}
 	return false
 }
